@@ -47,6 +47,35 @@ Theorem C16_reader_step_from_source : forall f depth acc bs,
   entries (S f) depth acc bs = entries_step_src (entries f) depth acc bs.
 Proof. exact entries_from_source. Qed.
 
+From Peppi Require Import Gen.UbjsonBodies Proofs.UbjsonBodiesLayout.
+(* ---- the bodies of the UBJSON reader and writer beyond the markers, regenerated (Gen/UbjsonBodies.v): width / signedness /
+   endianness of every read and write, the strict UTF-8 conversion (no trimming, no lossy conversion), the depth guard with its
+   constant and first depth, the length prefix taken from the BYTE length, the checked integer conversions *)
+Theorem C16_string_reader_from_source : forall bs, rd_str bs = rd_str_tbl bs.
+Proof. exact rd_str_from_source. Qed.
+Theorem C16_map_reader_from_source :
+  (forall f depth acc bs, entries (S f) depth acc bs = entries_step_bodies (entries f) depth acc bs) /\
+  (forall bs, read_map bs = if ubj_depth_refused ubj_depth_initial then Err EInvalid
+                            else entries (S (List.length bs)) ubj_depth_initial [] bs).
+Proof. exact (conj entries_bodies_from_source read_map_from_source). Qed.
+Theorem C16_depth_guard_from_source : forall depth,
+  ubj_depth_refused depth = (UBJSON_MAX_DEPTH <? depth)%N /\ ubj_depth_nested depth = (depth + 1)%N /\
+  ubj_depth_to_val depth = depth /\ ubj_depth_initial = 1%N /\ UBJSON_MAX_DEPTH = 127%N.
+Proof. exact depth_guard_from_source. Qed.
+Theorem C16_writer_bodies_from_source :
+  (forall s, wr_str s = wr_str_tbl s) /\ (forall n, write_val (UInt n) = wr_number_tbl n).
+Proof. exact (conj wr_str_bodies_from_source write_number_from_source). Qed.
+
+From Peppi Require Import Model.Slpp Gen.SlppEntries Proofs.SlppLayout Gen.SlppHelpers Proofs.SlppHelpersLayout.
+(* ---- the .slpp JSON copy of the metadata: the entry exists in every archive (no guard), and the reader's arms are
+   null => none, object => that map, anything else refused (regenerated) ---- *)
+Theorem C16_metadata_entry_from_source :
+  In ("metadata.json"%string, None) slpp_write_entries /\
+  meta_of_shape slpp_meta_arms MsNull = Some None /\
+  (forall m, meta_of_shape slpp_meta_arms (MsObject m) = Some (Some m)) /\
+  (forall v, v <> "Null"%string -> v <> "Object"%string -> meta_of_shape slpp_meta_arms (MsOther v) = None).
+Proof. split; [vm_compute; tauto | exact meta_arms_from_source]. Qed.
+
 Print Assumptions C16_write_ok.
 Print Assumptions C16_read_write.
 Print Assumptions C16_truncated_rejected.
@@ -54,3 +83,8 @@ Print Assumptions C16_file_metadata.
 Print Assumptions C16_json_copy_faithful.
 Print Assumptions C16_markers_from_source.
 Print Assumptions C16_reader_step_from_source.
+Print Assumptions C16_string_reader_from_source.
+Print Assumptions C16_map_reader_from_source.
+Print Assumptions C16_depth_guard_from_source.
+Print Assumptions C16_writer_bodies_from_source.
+Print Assumptions C16_metadata_entry_from_source.
